@@ -236,12 +236,13 @@ Print Assumptions C02_refusal_is_legitimate.
 
 (* ---- round 2: volatile repetition counts ------------------------------------------------------------------------------- *)
 (* "after the counts are updated the windows are the declared ones under the new counts" is FALSE of the faithful
-   model (Model.buildv: the tree built under en with the counts of en2) and of the code (known finding
+   model (Model.updated_windows: the tree built under en with the counts of en2, read with the cached body
+   durations of the build) and of the code (known finding
    volatile-update-stale-offsets): the window of the atom behind the repetition stays at 4 instead of moving to 6 *)
 Theorem C02_volatile_update_refuted :
-  exists p en en2 mm l,
-    (forall x, x <> 5%N -> en x = en2 x) /\ updated_program p en en2 mm = Some l /\
-    ~ Permutation (loop_windows l) (denote p en2 mm).
+  exists p en en2 mm ws,
+    (forall x, x <> 5%N -> en x = en2 x) /\ updated_windows p en en2 mm = Some ws /\
+    ~ Permutation ws (denote p en2 mm).
 Proof.
   exists (Seq [] [Rep [] (EV 5%N) (Atom false (EC (Q2Qc 2)) [(0%N, EC (Q2Qc 0), EC (Q2Qc 1))]);
                   Atom false (EC (Q2Qc 1)) [(1%N, EC (Q2Qc 0), EC (Q2Qc 1))]]).
